@@ -11,6 +11,7 @@ package main
 // number of events settles (marker rounds) and is bounded.
 
 import (
+	"context"
 	"fmt"
 	"sync"
 	"sync/atomic"
@@ -184,6 +185,15 @@ func c09Run(c *caseCtx) (res caseResult) {
 	// the sends
 	n := 1 + r.Intn(40)
 	nG := 1 + r.Intn(4)
+	// now and then a burst, with one monitor busy (held inside Receive on its first dead letter) so that
+	// more than a thousand events queue up in its inbox
+	burst := r.Intn(10) == 0 && nMon > 0
+	var held *eventMonitor
+	if burst {
+		n = 1100 + r.Intn(900)
+		held = mons[0]
+		held.hold = make(chan struct{})
+	}
 	sends := make([]c09Send, n)
 	classes := map[string]int{}
 	for i := range sends {
@@ -258,6 +268,11 @@ func c09Run(c *caseCtx) (res caseResult) {
 	}
 	// registry writers (spawns, stops, request/response registrations) churn while the sends are under way
 	churn := r.Intn(2) == 0
+	type churnRec struct {
+		pid *actor.PID
+		ctx context.Context
+	}
+	churned := make([][]churnRec, 2)
 	stopChurn := make(chan struct{})
 	var cwg sync.WaitGroup
 	if churn {
@@ -269,12 +284,14 @@ func c09Run(c *caseCtx) (res caseResult) {
 				for i := 0; ; i++ {
 					select {
 					case <-stopChurn:
-						return
+						if i >= 700 { // more than a thousand removals per case, whatever the sends take
+							return
+						}
 					default:
 					}
 					p := e.SpawnFunc(func(*actor.Context) {}, "churn", actor.WithID(fmt.Sprintf("%d-%d", k, i)))
-					e.Stop(p)
-					if i > 20000 {
+					churned[k] = append(churned[k], churnRec{p, e.Stop(p)})
+					if i > 3000 {
 						return
 					}
 				}
@@ -282,14 +299,20 @@ func c09Run(c *caseCtx) (res caseResult) {
 		}
 	}
 	go func() { wg.Wait(); close(done) }()
-	res.Desc = fmt.Sprintf("churn=%v sends=%d goroutines=%d monitors=%d deadSubscribers=%d classes=%v", churn, n, nG, nMon, nDead, classes)
+	res.Desc = fmt.Sprintf("burst=%v churn=%v sends=%d goroutines=%d monitors=%d deadSubscribers=%d classes=%v", burst, churn, n, nG, nMon, nDead, classes)
 	select {
 	case <-done:
 		close(stopChurn)
 	case <-time.After(wd):
 		close(stopChurn)
+		if held != nil {
+			close(held.hold)
+		}
 		res.violate("a Send call did not return within the watchdog: sending must never block the caller (%s)", res.Desc)
 		return
+	}
+	if held != nil {
+		close(held.hold)
 	}
 	cdone := make(chan struct{})
 	go func() { cwg.Wait(); close(cdone) }()
@@ -299,6 +322,26 @@ func c09Run(c *caseCtx) (res caseResult) {
 		res.violate("Spawn/Stop calls running next to the dead-letter sends did not return (%s)", res.Desc)
 		return
 	}
+	// the actors stopped by the churn: once their stop contexts are done they are gone from the registry (a
+	// message to one of them would otherwise vanish instead of becoming a dead letter)
+	nChurned := 0
+	for k := range churned {
+		for _, cr := range churned[k] {
+			select {
+			case <-cr.ctx.Done():
+			case <-time.After(wd):
+				res.inconclusive("a churn actor did not stop")
+				return
+			}
+			nChurned++
+			kind, id := idKind(cr.pid.ID)
+			if e.Registry.GetPID(kind, id) != nil {
+				res.violate("actor %s was stopped (its stop context is done) but is still registered after %d spawn/stop pairs by two goroutines: messages to it vanish silently instead of becoming dead letters", cr.pid.ID, len(churned[0])+len(churned[1]))
+				return
+			}
+		}
+	}
+	res.count("churned_actors", int64(nChurned))
 	// settle: marker rounds until the sentinel's event count is stable
 	bound := n*(nMon+nDead+3) + 16
 	prev, stable := -1, 0
